@@ -5,6 +5,7 @@ import (
 	"go/token"
 
 	"github.com/dave/dst"
+	"github.com/dave/dst/dstutil"
 )
 
 // ---- shared helpers ---------------------------------------------------------------------------
@@ -329,30 +330,45 @@ func vfPerType_C11(typ string) {
 
 // ---- C13: Walk / Inspect ---------------------------------------------------------------------
 
+// Recording visitors: every Visit(node) returns a fresh child visitor with its own id, and every call
+// records the id of the visitor that received it, so that the visitor identity of the closing
+// Visit(nil) (it must be the one returned for the node) is observable.
 type vfDstLog struct {
 	log   *[]dst.Node
+	ids   *[]int
+	id    int
 	prune int
 }
 
 func (v vfDstLog) Visit(n dst.Node) dst.Visitor {
 	*v.log = append(*v.log, n)
-	if n != nil && len(*v.log)-1 == v.prune {
+	*v.ids = append(*v.ids, v.id)
+	if n == nil {
 		return nil
 	}
-	return v
+	if len(*v.log)-1 == v.prune {
+		return nil
+	}
+	return vfDstLog{v.log, v.ids, len(*v.log), v.prune}
 }
 
 type vfAstLog struct {
 	log   *[]ast.Node
+	ids   *[]int
+	id    int
 	prune int
 }
 
 func (v vfAstLog) Visit(n ast.Node) ast.Visitor {
 	*v.log = append(*v.log, n)
-	if n != nil && len(*v.log)-1 == v.prune {
+	*v.ids = append(*v.ids, v.id)
+	if n == nil {
 		return nil
 	}
-	return v
+	if len(*v.log)-1 == v.prune {
+		return nil
+	}
+	return vfAstLog{v.log, v.ids, len(*v.log), v.prune}
 }
 
 // C13: dst.Walk over a generic instance (each optional child nil in turn, all nil, none nil) visits
@@ -374,14 +390,16 @@ func vfPerType_C13(typ string) {
 
 	var dl []dst.Node
 	var al []ast.Node
-	dst.Walk(vfDstLog{&dl, -1}, n)
-	ast.Walk(vfAstLog{&al, -1}, an)
+	var di, ai []int
+	dst.Walk(vfDstLog{&dl, &di, 0, -1}, n)
+	ast.Walk(vfAstLog{&al, &ai, 0, -1}, an)
 	vfReach("walked")
 	vfAssert(len(dl) == len(al), "same-visit-count")
 	for i := range dl {
 		if i >= len(al) {
 			break
 		}
+		vfAssert(di[i] == ai[i], "call-received-by-corresponding-visitor")
 		if dl[i] == nil || al[i] == nil {
 			vfAssert(dl[i] == nil && al[i] == nil, "nil-after-children-matches")
 			continue
@@ -402,8 +420,9 @@ func vfPerType_C13(typ string) {
 		if dl[p] != nil {
 			var dl2 []dst.Node
 			var al2 []ast.Node
-			dst.Walk(vfDstLog{&dl2, p}, n)
-			ast.Walk(vfAstLog{&al2, p}, an)
+			var di2, ai2 []int
+			dst.Walk(vfDstLog{&dl2, &di2, 0, p}, n)
+			ast.Walk(vfAstLog{&al2, &ai2, 0, p}, an)
 			vfAssert(len(dl2) == len(al2), "prune/same-visit-count")
 			for i := range dl2 {
 				if i >= len(al2) {
@@ -426,4 +445,49 @@ func vfPerType_C13(typ string) {
 			vfAssert(il[i] == dl[i], "inspect-same-order")
 		}
 	}
+}
+
+// ---- C04 accessors: dstutil.Decorations and Node.Decorations --------------------------------------
+
+// For every node type: the listing helper returns the node's spacing and its decoration points in the
+// order in which the restorer renders them, each backed by the node's own storage, and the
+// common-decorations accessor returns the node's own NodeDecs (writes through it are rendered).
+func vfPerType_C04Acc(typ string) {
+	g := &vfGen{prefix: "n", depth: 1, listLen: 1, decPoint: "^", spaces: true}
+	n := g.Node(typ)
+	before, after, pts := dstutil.Decorations(n)
+	nd := n.Decorations()
+	vfAssert(nd != nil, "accessor-non-nil")
+	vfAssert(before == nd.Before && after == nd.After, "helper-reports-node-spacing")
+	info := vfNodeInfo[typ]
+	vfAssert(len(pts) == len(info.Points), "helper-lists-every-point")
+
+	r := vfRestorerMid()
+	c0 := len(r.comments)
+	r.restoreNode(n, "", "", "", false)
+	var rendered []*ast.Comment
+	for i := c0; i < len(r.comments); i++ {
+		rendered = append(rendered, r.comments[i].List...)
+	}
+	vfAssert(len(rendered) == len(pts), "one-comment-per-point-rendered")
+	for i, p := range pts {
+		vfAssert(len(p.Decs) == 1, "helper-point-has-its-decoration")
+		if len(p.Decs) != 1 || i >= len(rendered) {
+			continue
+		}
+		vfAssert(rendered[i].Text == p.Decs[0], "helper-order-is-render-order")
+		own := vfDecsOf(n, p.Name)
+		vfAssert(len(own) == 1 && vfSharesStrings(own, p.Decs), "helper-backed-by-node-storage")
+	}
+	if len(pts) > 0 {
+		vfAssert(pts[0].Name == "Start" && pts[len(pts)-1].Name == "End", "start-first-end-last")
+		vfAssert(vfSharesStrings(nd.Start, pts[0].Decs), "accessor-backed-by-node-storage")
+		vfAssert(vfSharesStrings(nd.End, pts[len(pts)-1].Decs), "accessor-backed-by-node-storage")
+	}
+	// writes through the accessor are what gets rendered
+	nd.Start.Replace("/*replaced*/")
+	r2 := vfRestorerMid()
+	c2 := len(r2.comments)
+	r2.restoreNode(dst.Clone(n), "", "", "", false)
+	vfAssert(len(r2.comments) > c2 && r2.comments[c2].List[0].Text == "/*replaced*/", "accessor-writes-are-rendered")
 }
